@@ -7,7 +7,9 @@ evaluation: not applicable.  Decided here on the real code:
     unit sphere; for each of the 48 octahedral operations R, Y_l(R r) is a fixed signed permutation of Y_l(r) for l <= 1 and the
     l = 2 shell transforms orthogonally (Gram matrix invariant) for every r;
   * recursive_sph_harm_deriv returns value + tangential gradient of the same functions;
-  * the plan's l = 1 contraction (g_j . g_k, g_j . grad n) is invariant under a common orthogonal matrix."""
+  * the plan's l = 1 contraction (g_j . g_k, g_j . grad n) is invariant under a common orthogonal matrix;
+  * atom relabelling at the indexer level: AtomicGridsIndexer.from_tabs of a permuted molecule assigns every atom the same shells,
+    radii and spherical-harmonic rows (symbolic element tables; fake angular sizes 1-3 since from_tabs never looks at them)."""
 import itertools
 from fractions import Fraction
 
@@ -208,6 +210,63 @@ def h_l1_contraction_rotation(env, improper=False):
         env.equal("feature_%d_rotation_invariant" % i, fb[i, 0], fa[i, 0])
 
 
+class _FakeMol(object):
+    def __init__(self, atoms):
+        self.atoms = list(atoms)
+        self.natm = len(atoms)
+
+    def atom_symbol(self, ia):
+        return self.atoms[ia]
+
+
+def h_relabel_indexer(env, atoms, perm, shells, lmax=1):
+    """atom relabelling at the indexer level: AtomicGridsIndexer.from_tabs of the permuted molecule gives every atom the same
+    radial shells, shell sizes and spherical-harmonic rows as in the original order (symbolic element tables)"""
+    gi = env.m.grids_indexer
+    nlm = (lmax + 1) ** 2
+    rad_loc_tab, ylm_loc_tab, rad_tab, ylm_tab = {}, {}, {}, {}
+    for symb, angs in shells.items():
+        sizes = sorted(set(angs))
+        order = [i for n in sizes for i in range(len(angs)) if angs[i] == n]
+        rl = [0]
+        for i in order:
+            rl.append(rl[-1] + angs[i])
+        rad_loc_tab[symb] = np.array(rl, dtype=np.int32)
+        starts, acc = {}, 0
+        for n in sizes:
+            starts[n] = acc
+            acc += n
+        ylm_loc_tab[symb] = np.array([starts[angs[i]] for i in order], dtype=np.int32)
+        rad_tab[symb] = env.arr("rad_%s" % symb, (len(angs),), dom="pos", hi="8")
+        ylm_tab[symb] = env.arr("ylm_%s" % symb, (acc, nlm), lo="-2", hi="2")
+    atoms2 = [atoms[p] for p in perm]
+    ok, a = env.attempt("from_tabs_original", lambda: gi.AtomicGridsIndexer.from_tabs(_FakeMol(atoms), lmax, rad_loc_tab, ylm_loc_tab, rad_tab, ylm_tab))
+    ok2, b = env.attempt("from_tabs_relabelled", lambda: gi.AtomicGridsIndexer.from_tabs(_FakeMol(atoms2), lmax, rad_loc_tab, ylm_loc_tab, rad_tab, ylm_tab))
+    if not (ok and ok2):
+        return
+    for ib, ia in enumerate(perm):          # atom ib of the relabelled molecule is atom ia of the original
+        ra, rb = int(a.ra_loc[ia]), int(b.ra_loc[ib])
+        na, nb = int(a.ra_loc[ia + 1]) - ra, int(b.ra_loc[ib + 1]) - rb
+        env.check("atom%d_shell_count" % ia, na == nb, "%d vs %d" % (na, nb))
+        if na != nb:
+            continue
+        for k in range(na):
+            env.check("atom%d_shell%d_owner" % (ia, k), int(a.ar_loc[ra + k]) == ia and int(b.ar_loc[rb + k]) == ib, "%s %s" % (a.ar_loc[ra + k], b.ar_loc[rb + k]))
+            sa = int(a.rad_loc[ra + k + 1]) - int(a.rad_loc[ra + k])
+            sb = int(b.rad_loc[rb + k + 1]) - int(b.rad_loc[rb + k])
+            env.check("atom%d_shell%d_size" % (ia, k), sa == sb, "%d vs %d" % (sa, sb))
+            env.equal("atom%d_shell%d_radius" % (ia, k), b.rad_arr[rb + k], a.rad_arr[ra + k])
+            ya, yb = int(a.ylm_loc[ra + k]), int(b.ylm_loc[rb + k])
+            inb = ya + sa <= a.ylm.shape[0] and yb + sb <= b.ylm.shape[0]
+            env.check("atom%d_shell%d_ylm_rows_in_table" % (ia, k), inb, "%d+%d of %d ; %d+%d of %d" % (ya, sa, a.ylm.shape[0], yb, sb, b.ylm.shape[0]))
+            if sa != sb or not inb:
+                continue
+            for j in range(sa):
+                for lm in range(nlm):
+                    env.equal("atom%d_shell%d_pt%d_ylm%d" % (ia, k, j, lm), b.ylm[yb + j, lm], a.ylm[ya + j, lm])
+                    env.equal("atom%d_shell%d_pt%d_ylm%d_is_element_table" % (ia, k, j, lm), a.ylm[ya + j, lm], ylm_tab[atoms[ia]][int(ylm_loc_tab[atoms[ia]][k]) + j, lm])
+
+
 def tasks(tier):
     out = [Task("l1_convention", h_l1_convention, {}), Task("shell_norm/lmax2", h_shell_norm, dict(lmax=2)), Task("deriv/lmax2", h_deriv, dict(lmax=2)),
            Task("l1_contraction_rotation/proper", h_l1_contraction_rotation, {}, mods="numint", max_paths=64),
@@ -216,6 +275,11 @@ def tasks(tier):
     for iop in ops:
         out.append(Task("octahedral/l<=1/op%d" % iop, h_octahedral, dict(iop=iop)))
         out.append(Task("octahedral/l=2/op%d" % iop, h_octahedral_l2, dict(iop=iop)))
+    relab = [(("H", "He", "H"), (0, 2, 1), {"H": (2, 1), "He": (2,)}), (("H", "H", "He"), (2, 0, 1), {"H": (1, 2), "He": (3, 1)})]
+    if tier == "thorough":
+        relab += [(("H", "He", "Li", "H"), p, {"H": (2, 1, 2), "He": (1,), "Li": (3, 3)}) for p in itertools.permutations(range(4))]
+    for atoms, perm, shells in relab:
+        out.append(Task("relabel_indexer/%s/%s" % ("".join(atoms), "".join(map(str, perm))), h_relabel_indexer, dict(atoms=atoms, perm=perm, shells=shells), mods="grids"))
     if tier == "thorough":
         out.append(Task("shell_norm/lmax3", h_shell_norm, dict(lmax=3)))
         out.append(Task("deriv/lmax3", h_deriv, dict(lmax=3)))
@@ -226,6 +290,7 @@ def prepare(tier):
     m = sym_mods()
     m.settings, m.plans
     _signed_perm(1)
+    sym_mods("grids").grids_indexer
 
 
 def extra_evidence(results):
@@ -237,10 +302,10 @@ META = dict(
     explanation="clang LLVM IR of sph_harm.c executed on a symbolic unit vector; z3 decides polynomial identities on the sphere (exact where both sides use "
                 "the same constants, within 1e-12 where the C source's decimal constants meet pi); plan-level l=1 contraction under a symbolic orthogonal matrix",
     functions=["ciderpress/lib/mod_cider/sph_harm.c: setup_sph_harm_buffer, recursive_sph_harm, recursive_sph_harm_deriv, remove_radial_grad, recursive_sph_harm(_deriv)_vec",
-               "ciderpress/dft/plans.py: NLDFAuxiliaryPlan.eval_rho_full/eval_rho_vi_"],
+               "ciderpress/dft/plans.py: NLDFAuxiliaryPlan.eval_rho_full/eval_rho_vi_", "ciderpress/dft/grids_indexer.py: AtomicGridsIndexer.from_tabs/__init__"],
     bounds=dict(lmax="2 (3 thorough)", points=1, octahedral_operations="8 of 48 (quick), all 48 (thorough)", tolerance="1e-12 for identities involving pi vs the source's double constants"),
     stubs=["complex arithmetic: clang's expanded real/imag form; creal/cimag/__muldc3 by definition; calloc'd buffers zero-initialised"],
-    assumptions=["NOT APPLICABLE and not claimed: energy / XC-matrix invariance end to end, atom-permutation invariance of the generators, arbitrary rotations to quadrature accuracy, "
+    assumptions=["NOT APPLICABLE and not claimed: energy / XC-matrix invariance end to end, atom-permutation invariance of the generators beyond the indexer tables, arbitrary rotations to quadrature accuracy, "
                  "translation covariance of the spline routines (struct-heavy set-up not bridged in this round)",
                  "the signed permutation per operation is *found* numerically on the compiled library and then *verified* for every r by z3"],
 )
